@@ -387,3 +387,55 @@ def _t1_frame_lemma():
 
 
 R.lemma("t1-frame", "C12", _t1_frame_lemma)
+
+
+def _store_accessor_lemma():
+    """The frame clause above relies on the three store accessors T1 calls being read-only.  For the in-repo store
+    (clematis/graph/store.py:InMemoryGraphStore) this is checked here: following self.<method>() calls, an accessor must
+    not assign / delete / call a mutator through `self`.
+    Today this FAILS: get_graph / csr / version_etag all go through `ensure(gid)`, which inserts a fresh empty ConceptGraph
+    for an unknown gid (`self._graphs[gid] = ...`) -- natively: t1_propagate(ctx, {"store": InMemoryGraphStore(),
+    "active_graphs": ["ghost"]}, "x") leaves store._graphs == {"ghost": <empty graph>}."""
+    import ast
+    import z3
+    from pyvc import frontend
+    from pyvc.modset import MUTATORS
+    mod = frontend.load_module("clematis/graph/store.py")
+    ci = mod.classes["InMemoryGraphStore"]
+
+    def root(e):
+        while isinstance(e, (ast.Attribute, ast.Subscript)):
+            e = e.value
+        return e.id if isinstance(e, ast.Name) else None
+
+    def writes_self(mname, seen):
+        if mname in seen or mname not in ci.methods:
+            return []
+        seen.add(mname)
+        out = []
+        for n in ast.walk(ci.methods[mname]):
+            tg = []
+            if isinstance(n, ast.Assign):
+                tg = n.targets
+            elif isinstance(n, (ast.AugAssign, ast.AnnAssign)):
+                tg = [n.target]
+            elif isinstance(n, ast.Delete):
+                tg = n.targets
+            for t in tg:
+                if isinstance(t, (ast.Attribute, ast.Subscript)) and root(t) == "self":
+                    out.append("%s:%d" % (mname, t.lineno))
+            if isinstance(n, ast.Call) and isinstance(n.func, ast.Attribute):
+                if root(n.func.value) == "self" and isinstance(n.func.value, ast.Name):
+                    out.extend(writes_self(n.func.attr, seen))          # self.method(...)
+                elif root(n.func.value) == "self" and n.func.attr in MUTATORS:
+                    out.append("%s:%d" % (mname, n.lineno))
+        return out
+    goals = []
+    for acc in ("get_graph", "csr", "version_etag"):
+        w = writes_self(acc, set())
+        g = z3.BoolVal(True) if not w else z3.And(z3.BoolVal(False), z3.Bool("writes_self_at_" + "_".join(x.replace(":", "_line") for x in w)))
+        goals.append(("InMemoryGraphStore.%s-is-read-only" % acc, [], g))
+    return goals
+
+
+R.lemma("t1-frame-store-accessors", "C12", _store_accessor_lemma)
